@@ -35,8 +35,16 @@ class MeanToken:
         return f"MeanToken({self.img!r})"
 
 
-class _DaArrayBase:
+class _DaMeta(type):
+    def __instancecheck__(cls, obj):
+        # an image stub flagged numpy_like stands for an in-memory ndarray: not a dask array
+        return type.__instancecheck__(cls, obj) and not getattr(obj, "numpy_like", False)
+
+
+class _DaArrayBase(metaclass=_DaMeta):
     """isinstance target standing for dask.array.Array"""
+
+    numpy_like = False
 
 
 class ImgStub(_DaArrayBase):
@@ -130,6 +138,7 @@ class _Reshaped:
             raise Unsupported(f"ImgStub block sum over axes {axis}, expected {want}")
         bins = tuple(self.shape[2 * i + 1] for i in range(self.base.ndim))
         out = ImgStub(tuple(self.shape[2 * i] for i in range(self.base.ndim)), root=("binned", self.base, bins))
+        out.numpy_like = getattr(self.base, "numpy_like", False)
         return out
 
 
